@@ -54,13 +54,13 @@ fn label_of(action: &str) -> Option<&'static str> {
         "reset" => Some(L_RESET),
         "tstate" | "wstate" | "qstate" => Some(L_GET),
         "setfin" => Some(L_SETFIN),
-        "qfin" => Some(L_GETFIN),
+        "qfin" | "wpoll" => Some(L_GETFIN),
         _ => None,
     }
 }
 
 fn is_start(action: &str) -> bool {
-    matches!(action, "upd" | "reset" | "tstate" | "qfin")
+    matches!(action, "upd" | "reset" | "tstate" | "qfin" | "wpoll")
 }
 
 struct Noop;
@@ -459,9 +459,15 @@ impl Run {
     fn start_task(&mut self, name: &str, a: &str, x: &str, q_abs: Option<u64>, tickets: &[usize; 5]) -> Result<bool, String> {
         self.prepare_all(tickets);
         let snap = self.gates.snapshot();
-        if a == "qfin" {
-            let q = self.query_tick(x, q_abs);
-            self.spawn_query(name, x, q);
+        if a == "qfin" || a == "wpoll" {
+            // wpoll: the next poll of a waiting query names the instant of its first poll again
+            let prev = self.tasks.get(name).map(|t| t.q.clone()).filter(|q| !q.is_empty());
+            let q = match (a, prev) {
+                ("wpoll", Some(p)) => p,
+                ("wpoll", None) => self.query_tick("past", q_abs),
+                _ => self.query_tick(x, q_abs),
+            };
+            self.spawn_query(name, if a == "wpoll" { "wpoll" } else { x }, q);
         } else {
             self.spawn_composite(name, a);
         }
@@ -524,6 +530,7 @@ impl Run {
             ("R", "reset", _) => "reset",
             ("T", "get", 1) => "tstate",
             (_, "setfin", _) => "setfin",
+            ("Q", "getfin", _) if qkind == "wpoll" => "wpoll",
             ("Q", "getfin", _) => "qfin",
             ("Q", "get", _) => "qstate",
             (_, "get", _) => "wstate",
@@ -735,6 +742,13 @@ fn run_replay(rt: &tokio::runtime::Runtime, spec: &Value, port: u16) {
             "tick" => run.tick(),
             "latch" => run.set_latch(x == "on"),
             "sleep" => std::thread::sleep(Duration::from_millis(s["ms"].as_u64().unwrap_or(1))),
+            "waitq" => {
+                if let Err(why) = run.waiting_query(i, s["polls"].as_u64().unwrap_or(4)) {
+                    run.desync(why);
+                    stuck = true;
+                    break 'steps;
+                }
+            }
             "ask" => {
                 // a status query as a plain sequential step: it passes the query gates without parking (the first arrival
                 // at each is let through), so it needs no other query to be held anywhere
@@ -780,7 +794,7 @@ fn run_replay(rt: &tokio::runtime::Runtime, spec: &Value, port: u16) {
                             break 'steps;
                         }
                     }
-                    if a == "qfin" {
+                    if a == "qfin" || a == "wpoll" {
                         // queries are served by the listener task: if it still has messages to send (more than the
                         // schedule gave it) let it finish them; without a serving listener there is no query
                         let mut guard = 0;
@@ -873,6 +887,119 @@ fn run_replay(rt: &tokio::runtime::Runtime, spec: &Value, port: u16) {
             o
         }).collect();
         verif::trace::emit(json!({"e": "TagObs", "run": run.id, "obs": v}));
+    }
+}
+
+/// A byte-for-byte TCP forwarder in front of the listener that records the head of every request passing through:
+/// what the listener receives from the real `ProvisionQuery` client, poll by poll.
+fn capture_forwarder(listen_port: u16, target_port: u16, stop: Arc<AtomicBool>, seen: Arc<Mutex<Vec<Vec<(String, String)>>>>) -> Result<std::thread::JoinHandle<()>, String> {
+    let l = std::net::TcpListener::bind(("127.0.0.1", listen_port)).map_err(|e| format!("forwarder bind {}: {}", listen_port, e))?;
+    l.set_nonblocking(true).map_err(|e| e.to_string())?;
+    Ok(std::thread::spawn(move || {
+        while !stop.load(Ordering::SeqCst) {
+            match l.accept() {
+                Ok((mut c, _)) => {
+                    let seen = seen.clone();
+                    std::thread::spawn(move || {
+                        let _ = c.set_nonblocking(false);
+                        let mut up = match std::net::TcpStream::connect(("127.0.0.1", target_port)) {
+                            Ok(u) => u,
+                            Err(_) => return,
+                        };
+                        let (mut up_r, mut c_w) = match (up.try_clone(), c.try_clone()) {
+                            (Ok(a), Ok(b)) => (a, b),
+                            _ => return,
+                        };
+                        std::thread::spawn(move || {
+                            let mut buf = [0u8; 8192];
+                            loop {
+                                match up_r.read(&mut buf) {
+                                    Ok(0) | Err(_) => break,
+                                    Ok(n) => {
+                                        if c_w.write_all(&buf[..n]).is_err() {
+                                            break;
+                                        }
+                                    }
+                                }
+                            }
+                            let _ = c_w.shutdown(std::net::Shutdown::Both);
+                        });
+                        let mut acc: Vec<u8> = Vec::new();
+                        let mut buf = [0u8; 8192];
+                        loop {
+                            match c.read(&mut buf) {
+                                Ok(0) | Err(_) => break,
+                                Ok(n) => {
+                                    if up.write_all(&buf[..n]).is_err() {
+                                        break;
+                                    }
+                                    acc.extend_from_slice(&buf[..n]);
+                                    // GET requests have no body: every blank line ends one request head
+                                    while let Some(p) = acc.windows(4).position(|w| w == b"\r\n\r\n") {
+                                        let head = String::from_utf8_lossy(&acc[..p]).to_string();
+                                        acc.drain(..p + 4);
+                                        let mut h: Vec<(String, String)> = Vec::new();
+                                        for (n, line) in head.split("\r\n").enumerate() {
+                                            if n == 0 {
+                                                h.push((":request".to_string(), line.to_string()));
+                                            } else if let Some((k, v)) = line.split_once(':') {
+                                                h.push((k.trim().to_ascii_lowercase(), v.trim().to_string()));
+                                            }
+                                        }
+                                        seen.lock().unwrap().push(h);
+                                    }
+                                }
+                            }
+                        }
+                        let _ = up.shutdown(std::net::Shutdown::Both);
+                    });
+                }
+                Err(_) => std::thread::sleep(Duration::from_millis(2)),
+            }
+        }
+    }))
+}
+
+impl Run {
+    /// The real client of `--status --wait` (provision_query::ProvisionQuery, as main.rs builds it) against the real
+    /// listener, for about `polls` polls, nothing else moving; no key keeper task runs, so the notification of the first
+    /// poll is not served.  Records every request the listener received (tick / notify headers) and what the client returned.
+    fn waiting_query(&mut self, i: u64, polls: u64) -> Result<(), String> {
+        if !self.tasks.get("ls").map(|t| t.serving).unwrap_or(false) {
+            verif::trace::emit(json!({"e": "Skip", "run": self.id, "k": self.k, "t": "q", "i": i, "a": "waitq"}));
+            return Ok(());
+        }
+        // the polls pass the query gates without parking
+        self.gates.arm(L_GETFIN, 1_000_000);
+        self.gates.arm(L_GET, 1_000_000);
+        let fport = self.port.wrapping_add(12000);
+        let stop = Arc::new(AtomicBool::new(false));
+        let seen: Arc<Mutex<Vec<Vec<(String, String)>>>> = Arc::new(Mutex::new(Vec::new()));
+        let fw = capture_forwarder(fport, self.port, stop.clone(), seen.clone())?;
+        // get_provision_status_wait polls while wait_duration >= time since process start
+        let d = Duration::from_millis(crate::common::helpers::get_elapsed_time_in_millisec() as u64 + polls.saturating_sub(1) * 100 + 50);
+        let before = now_nanos();
+        let query = provision::provision_query::ProvisionQuery::new(fport, Some(d));
+        let after = now_nanos();
+        let res = self.rt.block_on(async move {
+            tokio::time::timeout(Duration::from_secs(8), query.get_provision_status_wait()).await
+        });
+        stop.store(true, Ordering::SeqCst);
+        let _ = fw.join();
+        let reqs: Vec<Value> = seen.lock().unwrap().iter().map(|h| {
+            let get = |k: &str| h.iter().find(|(n, _)| n == k).map(|(_, v)| v.clone());
+            json!({"tick": get("x-ms-azure-time_tick"), "notify": get("x-ms-azure-notify").is_some(), "line": get(":request")})
+        }).collect();
+        match res {
+            Ok(st) => {
+                let out = Outcome::Done;
+                self.emit_step("q", i, "waitq", "-", &out, json!({"g": "ask", "op": "Q", "stage": 1, "exp": "waitq", "extra": false, "sub": "-",
+                    "qkind": "wait", "created_between": [before.to_string(), after.to_string()], "polls": reqs,
+                    "status": 200, "body": serde_json::to_string(&st).unwrap_or_default()}), true);
+                Ok(())
+            }
+            Err(_) => Err(format!("q{} waitq: the client did not return", i)),
+        }
     }
 }
 
